@@ -790,18 +790,61 @@ theorem rel_qclear (s : World) (j : JState) (h : Rel s j) : Rel (stepE s .qclear
   | none => exact rel_same s j h _ rfl
   | some q =>
     cases hb : s.blocked with
-    | some m => exact rel_same s j h _ rfl
-    | none =>
+    | some bm =>
       obtain ⟨jq, hjq, hr⟩ := relQ_some (hs ▸ h.q)
-      simp only
-      rw [judgeRun_single h]
-      simp only [judgeCore, hjq]
+      have hjb : jq.blocked = some bm := by rw [hr.blk, hb]
       have hinv : q.clear.Inv :=
         ⟨hr.inv.cap_pos, hr.inv.len, hr.inv.cap_pos, hr.inv.cap_pos, Nat.zero_le _, by simp [Q.clear, Nat.zero_mod]⟩
-      have hrel : QRel q.clear none { jq with contents := [] } :=
+      have hbs : ¬ (bm.size = 0 ∨ bm.size > q.clear.maxMsg) := hr.bsize bm hb
+      have hcs : clearSignals = true := by decide
+      have hcc : q.clear.contents = [] := by simp [Q.clear, Q.contents]
+      have hpos := hr.inv.cap_pos
+      simp only
+      obtain ⟨hinv2, hcap2, hflags2, hspec2⟩ := Q.enqueue_spec q.clear hinv bm
+      obtain ⟨hmax2, hcnt2⟩ := Q.enqueue_fields q.clear bm
+      generalize hres2 : q.clear.enqueue bm = res2 at hinv2 hcap2 hflags2 hspec2 hmax2 hcnt2 ⊢
+      obtain ⟨q2, r2⟩ := res2
+      simp only at hinv2 hcap2 hflags2 hspec2 hmax2 hcnt2 ⊢
+      have hz : q.clear.count = 0 := rfl
+      have hck : q.clear.cap = q.cap := rfl
+      cases hspec2 with
+      | badSize hx _ => exact absurd hx hbs
+      | dropOldest _ hf _ _ _ => omega
+      | blocked _ hf _ _ _ => omega
+      | full _ hf _ _ _ => omega
+      | room _ _ hc2 =>
+        obtain ⟨d1, d2, d3⟩ := hcnt2 rfl
+        have hnf : ¬ (q.clear.count ≥ q.clear.cap) := by omega
+        simp only [hnf, if_false, Nat.add_zero] at d3
+        simp only [hcs, true_and, if_true]
+        have hlr : ([] : List Msg).length < jq.cap := by rw [hr.cap]; exact hpos
+        have e1 : judgeStep j .qclear = { j with q := some { jq with contents := [], mustWake := true } } := by
+          simp only [judgeStep, wakeCheck_id j _ h.wake, judgeCore, hjq, hjb, Option.isSome_some]
+        have e2 : judgeStep { j with q := some { jq with contents := [], mustWake := true } } (.unblocked bm.p bm.v) =
+            { j with q := some { jq with contents := [] ++ [bm], enq := jq.enq + 1, blocked := none, mustWake := false } } := by
+          simp only [judgeStep, wakeCheck, judgeCore, hjb, true_and, hlr, if_true]
+        have : judgeRun j [.qclear, .unblocked bm.p bm.v] =
+            { j with q := some { jq with contents := [] ++ [bm], enq := jq.enq + 1, blocked := none, mustWake := false } } := by
+          simp only [judgeRun, List.foldl_cons, List.foldl_nil, e1, e2]
+        rw [this]
+        have hrel : QRel q2 none { jq with contents := [] ++ [bm], enq := jq.enq + 1, blocked := none, mustWake := false } :=
+          ⟨hinv2, by rw [hcap2]; exact hr.cap, by rw [hmax2]; exact hr.maxMsg,
+            by rw [hflags2]; exact hr.flags, by rw [hc2, hcc],
+            by rw [d1]; exact congrArg (· + 1) hr.enq, by rw [d2]; exact hr.deq, by rw [d3]; exact hr.drop, rfl, rfl,
+            fun m hm => by cases hm⟩
+        exact rel_q h (some q2) none (some _) hrel
+    | none =>
+      obtain ⟨jq, hjq, hr⟩ := relQ_some (hs ▸ h.q)
+      have hjb : jq.blocked = none := by rw [hr.blk, hb]
+      simp only
+      rw [judgeRun_single h]
+      simp only [judgeCore, hjq, hjb, Option.isSome_none]
+      have hinv : q.clear.Inv :=
+        ⟨hr.inv.cap_pos, hr.inv.len, hr.inv.cap_pos, hr.inv.cap_pos, Nat.zero_le _, by simp [Q.clear, Nat.zero_mod]⟩
+      have hrel : QRel q.clear none { jq with contents := [], blocked := none, mustWake := false } :=
         ⟨hinv, hr.cap, hr.maxMsg, hr.flags, by simp [Q.clear, Q.contents], hr.enq, hr.deq, hr.drop,
-          by rw [← hb]; exact hr.blk, hr.wake, fun m hm => by cases hm⟩
-      have := rel_q h (some q.clear) none (some { jq with contents := [] }) hrel
+          rfl, rfl, fun m hm => by cases hm⟩
+      have := rel_q h (some q.clear) none (some { jq with contents := [], blocked := none, mustWake := false }) hrel
       simpa [hb] using this
 
 theorem rel_enq (s : World) (j : JState) (h : Rel s j) (p v sz : Nat) :
@@ -1020,6 +1063,11 @@ theorem rel_step (s : World) (j : JState) (h : Rel s j) (c : Cmd) :
   | tcleanup => exact rel_tcleanup s j h
   | mt kind args => simp only [stepE]; exact rel_same s j h _ rfl
   | hbrace ms => simp only [stepE]; exact rel_same s j h _ rfl
+  | hbowed =>
+    simp only [stepE]
+    have hk : Gen.C19.hbClearsFlagFirst = true := rfl
+    rw [hk]
+    exact rel_same s j h _ rfl
 
 theorem rel_run (cmds : List Cmd) : ∀ (s : World) (j : JState), Rel s j →
     Rel (runE s cmds).1 (judgeRun j (runE s cmds).2) := by
